@@ -1,6 +1,7 @@
 // C06 key=hand-packed-spellings status=fixed
 // every spelling of the packed attribute that cproc documents packs the struct (seeded change C06-advb-06-4 lost
-// [[gnu::__packed__]]: the name after a vendor prefix was no longer stripped of its underscores)
+// [[gnu::__packed__]]: the name after a vendor prefix was no longer stripped of its underscores; C06-adve-06-3 ignored every
+// __attribute__ specifier after the first of a sequence)
 struct [[gnu::packed]] P1 { char c; long l; short h; };
 struct [[gnu::__packed__]] P2 { char c; long l; short h; };
 struct [[__gnu__::packed]] P3 { char c; long l; short h; };
@@ -8,6 +9,10 @@ struct [[__gnu__::__packed__]] P4 { char c; long l; short h; };
 struct __attribute__((packed)) P5 { char c; long l; short h; };
 struct __attribute__((__packed__)) P6 { char c; long l; short h; };
 struct N { char c; long l; short h; };
+struct __attribute__((unused)) __attribute__((packed)) P7 { char c; long l; short h; };
+struct __attribute__((packed)) __attribute__((unused)) P8 { char c; long l; short h; };
+struct __attribute__((unused)) __attribute__((unused)) __attribute__((packed)) P9 { char c; long l; short h; };
+unsigned long v8[] = { sizeof(struct P7), _Alignof(struct P7), sizeof(struct P8), _Alignof(struct P8), sizeof(struct P9), _Alignof(struct P9) };
 unsigned long v1[] = { sizeof(struct P1), _Alignof(struct P1), __builtin_offsetof(struct P1, l), __builtin_offsetof(struct P1, h) };
 unsigned long v2[] = { sizeof(struct P2), _Alignof(struct P2), __builtin_offsetof(struct P2, l), __builtin_offsetof(struct P2, h) };
 unsigned long v3[] = { sizeof(struct P3), _Alignof(struct P3), __builtin_offsetof(struct P3, l), __builtin_offsetof(struct P3, h) };
